@@ -12,7 +12,9 @@ import (
 	"sort"
 	"strings"
 	"sync"
+	"sync/atomic"
 	"testing"
+	"time"
 
 	"verifharness/ref"
 	"verifharness/vh"
@@ -20,12 +22,22 @@ import (
 
 var none = Cand{K: "none"}
 
-// monitor is the oracle-free statement of C19 on the stored rows: whatever the specification says,
-// every row ever observed carries a valid signature of its log, and successive rows of a log never
-// shrink and extend one another (equal size => equal root).
+// monitor is the oracle-free statement of C19, judged per log IDENTITY (the 32-byte id a row key or a
+// cosigned STH names, whatever its spelling): whatever the specification says,
+//   - every row ever observed carries a valid signature of its log, sits under the configured spelling of
+//     its id (one row per log), and successive contents of the rows of a log never shrink and extend one
+//     another (equal size => equal root);
+//   - every cosigned STH the witness hands out verifies (log signature, cosignature), and the cosigned
+//     STHs of a log, in the order they were handed out, never shrink and extend one another.
 type monitor struct {
-	w    *World
-	last map[string]*storedSTH
+	w       *World
+	last    map[string]*storedSTH // per log identity: the latest stored STH
+	rows    map[string][]byte     // per row key: the bytes last seen
+	lastCos map[string]*storedSTH // per log identity: the latest cosigned STH
+}
+
+func newMonitor(w *World) *monitor {
+	return &monitor{w: w, last: map[string]*storedSTH{}, rows: map[string][]byte{}, lastCos: map[string]*storedSTH{}}
 }
 
 type storedSTH struct {
@@ -34,17 +46,59 @@ type storedSTH struct {
 	raw  []byte
 }
 
+// forward judges a successor p -> (size, root) of one log's history; "" if it is fine.
+func (m *monitor) forward(p *storedSTH, size uint64, root []byte) (fp, what string) {
+	switch {
+	case size < p.size:
+		return "shrunk", fmt.Sprintf("shrank from %d to %d", p.size, size)
+	case size == p.size && !bytes.Equal(root, p.root):
+		return "equal-size-other-root", fmt.Sprintf("size %d with another root", size)
+	case size == p.size || p.size == 0:
+		return "", ""
+	}
+	// genuine extension: the new head must be a head of a known family whose prefix has the old root
+	for _, t := range m.w.Trees {
+		if int(size) <= t.Size() && bytes.Equal(t.Root(int(size)), root) && bytes.Equal(t.Root(int(p.size)), p.root) {
+			return "", ""
+		}
+	}
+	return "not-an-extension", fmt.Sprintf("size %d replaced by size %d which does not extend it", p.size, size)
+}
+
 func (m *monitor) observe(in *Inst, rep *vh.Report, ctxt any) {
-	for _, l := range []string{"L1", "L2", "LX"} {
-		raw, ok, err := in.Row(m.w.IDs[l])
-		if err != nil || !ok {
-			if m.last[l] != nil && err == nil {
-				rep.Violate("monitor:row-deleted", "a stored STH disappeared", ctxt)
-			}
+	rows, err := in.Rows()
+	if err != nil {
+		panic(infra("cannot read the table: " + err.Error()))
+	}
+	for k := range m.rows {
+		if _, ok := rows[k]; !ok {
+			rep.Violate("monitor:row-deleted", "a stored STH disappeared", ctxt)
+			delete(m.rows, k)
+		}
+	}
+	keys := make([]string, 0, len(rows))
+	for k := range rows {
+		keys = append(keys, k)
+	}
+	sort.Strings(keys)
+	perLog := map[string]int{}
+	for _, key := range keys {
+		raw := rows[key]
+		l := m.w.LogOfID(key)
+		perLog[l]++
+		if l != "" && perLog[l] == 2 {
+			rep.Violate("monitor:two-rows-one-log", fmt.Sprintf("the table holds more than one row for the log id of %s (a second history for the same log)", l), ctxt)
+		}
+		if p, ok := m.rows[key]; ok && bytes.Equal(p, raw) {
 			continue
 		}
-		if p := m.last[l]; p != nil && bytes.Equal(p.raw, raw) {
+		m.rows[key] = raw
+		if l == "" || l == "LX" || l == "bad" {
+			rep.Violate("monitor:stored-unknown-log", "an STH was stored for a log the witness is not configured with", ctxt)
 			continue
+		}
+		if key != m.w.IDs[l] {
+			rep.Violate("monitor:row-under-other-spelling", fmt.Sprintf("an STH was stored under %q, another spelling of the id of %s", key, l), ctxt)
 		}
 		var s struct {
 			Size uint64 `json:"tree_size"`
@@ -58,33 +112,38 @@ func (m *monitor) observe(in *Inst, rep *vh.Report, ctxt any) {
 		}
 		root, _ := base64.StdEncoding.DecodeString(s.Root)
 		sig, _ := base64.StdEncoding.DecodeString(s.Sig)
-		if l == "LX" {
-			rep.Violate("monitor:stored-unknown-log", "an STH was stored for a log the witness is not configured with", ctxt)
-			continue
-		}
 		if err := ref.Verify(&m.w.Keys[l].PublicKey, ref.STHSignatureInput(s.TS, s.Size, root), sig); err != nil {
 			rep.Violate("monitor:stored-badsig", "stored an STH without a valid signature of the configured log: "+err.Error(), ctxt)
 		}
 		if p := m.last[l]; p != nil {
-			if s.Size < p.size {
-				rep.Violate("monitor:shrunk", fmt.Sprintf("held STH shrank from %d to %d", p.size, s.Size), ctxt)
-			} else if s.Size == p.size && !bytes.Equal(root, p.root) {
-				rep.Violate("monitor:equal-size-other-root", "held STH replaced by one of equal size and different root", ctxt)
-			} else if p.size > 0 {
-				// genuine extension: the new head must be a head of a known family whose prefix has the old root
-				ext := false
-				for _, t := range m.w.Trees {
-					if int(s.Size) <= t.Size() && bytes.Equal(t.Root(int(s.Size)), root) && bytes.Equal(t.Root(int(p.size)), p.root) {
-						ext = true
-					}
-				}
-				if !ext {
-					rep.Violate("monitor:not-an-extension", fmt.Sprintf("held STH of size %d replaced by size %d which does not extend it", p.size, s.Size), ctxt)
-				}
+			if fp, what := m.forward(p, s.Size, root); fp != "" {
+				rep.Violate("monitor:"+fp, "held STH of "+l+": "+what, ctxt)
 			}
 		}
 		m.last[l] = &storedSTH{s.Size, root, raw}
 	}
+}
+
+// cosigned judges one reply body handed out by the witness.
+func (m *monitor) cosigned(body []byte, rep *vh.Report, ctxt any) {
+	cs, ok := m.w.Cosigned(body)
+	if !ok {
+		return
+	}
+	if cs.Note != "" {
+		rep.Violate("monitor:cosigned-badsig", cs.Note, ctxt)
+		return
+	}
+	if cs.Log == "LX" || cs.Log == "bad" {
+		rep.Violate("monitor:cosigned-unknown-log", "cosigned an STH of a log the witness is not configured with", ctxt)
+		return
+	}
+	if p := m.lastCos[cs.Log]; p != nil {
+		if fp, what := m.forward(p, cs.Size, cs.Root); fp != "" {
+			rep.Violate("monitor:cosigned-"+fp, "successive cosigned STHs of "+cs.Log+": "+what, ctxt)
+		}
+	}
+	m.lastCos[cs.Log] = &storedSTH{cs.Size, cs.Root, nil}
 }
 
 func relation(held, c Cand) string {
@@ -103,10 +162,40 @@ func relation(held, c Cand) string {
 	return "larger"
 }
 
-func runBehaviour(w *World, beh []Step, idx int, rep *vh.Report, dir string) {
+// dbDir is where file databases live: a memory file system when there is one (the lock faults need
+// real files, not durability).
+func dbDir(t *testing.T) string {
+	if st, err := os.Stat("/dev/shm"); err == nil && st.IsDir() {
+		if d, err := os.MkdirTemp("/dev/shm", "verif-c19-"); err == nil {
+			t.Cleanup(func() { os.RemoveAll(d) })
+			return d
+		}
+	}
+	return t.TempDir()
+}
+
+func hasFault(beh []Step) bool {
+	for _, s := range beh {
+		if s.Fault != "none" && s.Fault != "ctx" && s.Fault != "" {
+			return true
+		}
+	}
+	return false
+}
+
+func runBehaviour(w *World, beh []Step, idx int, rep *vh.Report, dir, shm string) {
 	dsn := fmt.Sprintf("file:c19_%d_%d?mode=memory&cache=shared", os.Getpid(), idx)
+	dsnH := fmt.Sprintf("file:c19h_%d_%d?mode=memory&cache=shared", os.Getpid(), idx)
 	maxc := 1
-	if dir != "" && idx%7 == 0 { // some behaviours on a file database, as deployed
+	if hasFault(beh) { // lock faults are injected by a second connection to a database file
+		dsn = FileDSN(filepath.Join(shm, fmt.Sprintf("f%d.db", idx)))
+		dsnH = FileDSN(filepath.Join(shm, fmt.Sprintf("fh%d.db", idx)))
+		defer func() {
+			for _, f := range []string{"f%d.db", "fh%d.db", "f%d.db-journal", "fh%d.db-journal"} {
+				os.Remove(filepath.Join(shm, fmt.Sprintf(f, idx)))
+			}
+		}()
+	} else if dir != "" && idx%7 == 0 { // some behaviours on a file database, as deployed
 		dsn = filepath.Join(dir, fmt.Sprintf("w%d.db", idx))
 	}
 	direct, err := w.NewInst(dsn, maxc)
@@ -114,34 +203,48 @@ func runBehaviour(w *World, beh []Step, idx int, rep *vh.Report, dir string) {
 		panic(err)
 	}
 	defer direct.Close()
-	viaHTTP, err := w.NewInst(fmt.Sprintf("file:c19h_%d_%d?mode=memory&cache=shared", os.Getpid(), idx), 1)
+	viaHTTP, err := w.NewInst(dsnH, 1)
 	if err != nil {
 		panic(err)
 	}
 	defer viaHTTP.Close()
-	mon := &monitor{w: w, last: map[string]*storedSTH{}}
-	monH := &monitor{w: w, last: map[string]*storedSTH{}}
+	mon := newMonitor(w)
+	monH := newMonitor(w)
 	kinds := map[string]bool{}
 	for n, s := range beh {
+		if s.Sp == "" {
+			s.Sp = "canon"
+		}
+		if s.Fault == "" {
+			s.Fault = "none"
+		}
 		held := none
 		if h, ok := s.Pre[s.Log]; ok {
 			held = h
 		}
-		ctxt := map[string]any{"behaviour": beh[:n+1], "step": n}
+		variant := idx + 7*n
+		ctxt := map[string]any{"behaviour": beh[:n+1], "step": n, "id": w.Spell(s.Log, s.Sp, variant)}
 		func() {
 			defer func() {
 				if r := recover(); r != nil {
+					if _, ok := r.(infra); ok {
+						panic(r)
+					}
 					rep.Violate("panic:"+s.Op, fmt.Sprintf("panic in %s: %v", s.Op, r), ctxt)
 				}
 			}()
-			got := w.DoDirect(direct, s, held)
+			release, ok := direct.Hold(s.Fault)
+			if !ok {
+				panic(infra("the " + s.Fault + " lock could not be taken between two calls"))
+			}
+			got := func() Got { defer release(); return w.DoDirect(direct, s, held, variant) }()
 			rel := relation(held, s.Cand)
-			kinds[s.Op+"/"+s.Reply.Code+"/"+s.Reply.Kind+"/"+rel] = true
+			kinds[s.Op+"/"+s.Reply.Code+"/"+s.Reply.Kind+"/"+rel+"/"+reqClass(s)] = true
 			if got.Code != s.Reply.Code || got.Kind != s.Reply.Kind || got.Note != "" ||
 				(s.Op == "GetLogs" && strings.Join(got.Logs, ",") != strings.Join(sorted(s.Reply.Logs), ",")) {
-				rep.Violate(fmt.Sprintf("replay:%s:%s:pf=%s:want=%s/%s:got=%s/%s", s.Op, rel, pfClass(s), s.Reply.Code, s.Reply.Kind, got.Code, got.Kind),
-					fmt.Sprintf("%s(%s, %s, proof %s) with held %s: specification replies %s/%s(%s), implementation %s/%s %s %v",
-						s.Op, s.Log, s.Cand, s.Pf, held, s.Reply.Code, s.Reply.Kind, s.Reply.STH, got.Code, got.Kind, got.Note, got.Logs), ctxt)
+				rep.Violate(fmt.Sprintf("replay:%s:%s:pf=%s:%s:want=%s/%s:got=%s/%s", s.Op, rel, pfClass(s), reqClass(s), s.Reply.Code, s.Reply.Kind, got.Code, got.Kind),
+					fmt.Sprintf("%s(%s spelled %s, %s, proof %s) under storage fault %s with held %s: specification replies %s/%s(%s), implementation %s/%s %s %v",
+						s.Op, s.Log, s.Sp, s.Cand, s.Pf, s.Fault, held, s.Reply.Code, s.Reply.Kind, s.Reply.STH, got.Code, got.Kind, got.Note, got.Logs), ctxt)
 			}
 			// stored rows against the specification's post-state
 			for _, l := range []string{"L1", "L2"} {
@@ -151,21 +254,30 @@ func runBehaviour(w *World, beh []Step, idx int, rep *vh.Report, dir string) {
 				}
 				want := s.Post[l]
 				if (want.K == "sth") != ok || (ok && !bytes.Equal(raw, w.Raw(want, l))) {
-					rep.Violate(fmt.Sprintf("replay:state:%s:%s:pf=%s", s.Op, rel, pfClass(s)),
-						fmt.Sprintf("after %s(%s, %s, proof %s) with held %s the stored STH of %s is not the specification's %s", s.Op, s.Log, s.Cand, s.Pf, held, l, want), ctxt)
+					rep.Violate(fmt.Sprintf("replay:state:%s:%s:pf=%s:%s", s.Op, rel, pfClass(s), reqClass(s)),
+						fmt.Sprintf("after %s(%s spelled %s, %s, proof %s) under storage fault %s with held %s the stored STH of %s is not the specification's %s", s.Op, s.Log, s.Sp, s.Cand, s.Pf, s.Fault, held, l, want), ctxt)
 				}
 			}
+			mon.cosigned(got.Body, rep, ctxt)
 			mon.observe(direct, rep, ctxt)
 			// the same step through the HTTP server
-			gh, code := w.DoHTTP(viaHTTP, s, held)
+			release, ok = viaHTTP.Hold(s.Fault)
+			if !ok {
+				panic(infra("the " + s.Fault + " lock could not be taken between two calls"))
+			}
+			var code int
+			gh := func() Got { defer release(); g, c := w.DoHTTP(viaHTTP, s, held, variant); code = c; return g }()
 			wantCode := s.Reply.Code
 			if s.Op == "Update" && wantCode == "NotFound" {
 				wantCode = "Other" // server.go answers 500 for every update error that is not FailedPrecondition
 			}
 			if gh.Code != wantCode || gh.Kind != s.Reply.Kind || gh.Note != "" ||
 				(s.Op == "GetLogs" && strings.Join(gh.Logs, ",") != strings.Join(sorted(s.Reply.Logs), ",")) {
-				rep.Violate(fmt.Sprintf("http:%s:%s:pf=%s:want=%s/%s:got=%d/%s", s.Op, rel, pfClass(s), wantCode, s.Reply.Kind, code, gh.Kind),
-					fmt.Sprintf("HTTP %s(%s, %s, proof %s) with held %s: specification %s/%s, server %d/%s %s", s.Op, s.Log, s.Cand, s.Pf, held, wantCode, s.Reply.Kind, code, gh.Kind, gh.Note), ctxt)
+				rep.Violate(fmt.Sprintf("http:%s:%s:pf=%s:%s:want=%s/%s:got=%d/%s", s.Op, rel, pfClass(s), reqClass(s), wantCode, s.Reply.Kind, code, gh.Kind),
+					fmt.Sprintf("HTTP %s(%s spelled %s, %s, proof %s) under storage fault %s with held %s: specification %s/%s, server %d/%s %s", s.Op, s.Log, s.Sp, s.Cand, s.Pf, s.Fault, held, wantCode, s.Reply.Kind, code, gh.Kind, gh.Note), ctxt)
+			}
+			if code == 200 {
+				monH.cosigned(gh.Body, rep, ctxt)
 			}
 			monH.observe(viaHTTP, rep, ctxt)
 		}()
@@ -180,6 +292,20 @@ func runBehaviour(w *World, beh []Step, idx int, rep *vh.Report, dir string) {
 		key = strings.Join(ks, ";")
 	}
 	rep.Eval(key)
+}
+
+// reqClass names the spelling / fault class of a request for fingerprints ("plain" for the configured
+// spelling on a healthy database).
+func reqClass(s Step) string {
+	switch {
+	case s.Sp != "canon" && s.Fault != "none":
+		return "sp=" + s.Sp + ",fault=" + s.Fault
+	case s.Sp != "canon":
+		return "sp=" + s.Sp
+	case s.Fault != "none":
+		return "fault=" + s.Fault
+	}
+	return "plain"
 }
 
 func pfClass(s Step) string {
@@ -206,8 +332,9 @@ func TestReplay(t *testing.T) {
 	if err != nil {
 		t.Fatal(err)
 	}
-	rep := vh.NewReport("c19-replay", "behaviours of Witness.tla (TLC simulation and transition cover) replayed step by step into the real witness, directly and through its HTTP server; non-trivial = distinct set of (operation, reply class, size relation) with at least two members")
+	rep := vh.NewReport("c19-replay", "behaviours of Witness.tla (TLC simulation and transition cover) replayed step by step into the real witness, directly and through its HTTP server, with the log id spelled as the step says and the step's storage fault injected for real (a second connection to the database file holding a SHARED / RESERVED / EXCLUSIVE lock, or a cancelled context); an independent monitor judges stored rows and cosigned replies per 32-byte log id; non-trivial = distinct set of (operation, reply class, size relation, spelling/fault class) with at least two members")
 	dir := t.TempDir()
+	shm := dbDir(t)
 	workers := runtime.NumCPU()
 	var wg sync.WaitGroup
 	ch := make(chan int)
@@ -220,7 +347,7 @@ func TestReplay(t *testing.T) {
 				panic(err)
 			}
 			for i := range ch {
-				runBehaviour(w, behs[i], i, rep, dir)
+				runBehaviour(w, behs[i], i, rep, dir, shm)
 			}
 		}(k)
 	}
@@ -253,10 +380,16 @@ func TestTrace(t *testing.T) {
 	if err != nil {
 		t.Fatal(err)
 	}
-	rep := vh.NewReport("c19-trace", "concurrent Update/GetSTH callers on one real witness (file sqlite, one connection, -race); invoke/return histories checked for linearizability by WitnessTrace.tla; non-trivial = trace in which at least two updates were stored")
+	rep := vh.NewReport("c19-trace", "concurrent Update/GetSTH callers on one real witness (file sqlite, one connection, -race), log ids in several spellings, in every second trace another connection takes SHARED / RESERVED / EXCLUSIVE locks for a while (logged fault windows); invoke/return histories checked for linearizability by WitnessTrace.tla; non-trivial = trace in which at least two updates were stored")
 	dir := t.TempDir()
+	shm := dbDir(t)
 	for tr := 0; tr < ntraces; tr++ {
-		in, err := w.NewInst(filepath.Join(dir, fmt.Sprintf("t%d.db", tr)), 1)
+		faulty := tr%2 == 1
+		dsn := filepath.Join(dir, fmt.Sprintf("t%d.db", tr))
+		if faulty {
+			dsn = FileDSN(filepath.Join(shm, fmt.Sprintf("t%d.db", tr)))
+		}
+		in, err := w.NewInst(dsn, 1)
 		if err != nil {
 			t.Fatal(err)
 		}
@@ -264,6 +397,44 @@ func TestTrace(t *testing.T) {
 		ncallers := 2 + tr%3
 		var wg sync.WaitGroup
 		var stored sync.Map
+		var ops atomic.Int64
+		done := make(chan struct{})
+		holderDone := make(chan struct{})
+		if faulty {
+			// another connection takes a lock for a while; the logged window encloses the real one
+			go func() {
+				defer close(holderDone)
+				rng := vh.Rand(int64(tr*100 + 77))
+				waitOps := func(n int64) bool {
+					for ops.Load() < n {
+						select {
+						case <-done:
+							return false
+						default:
+							time.Sleep(20 * time.Microsecond) // pacing only, nothing is judged by time
+						}
+					}
+					return true
+				}
+				at := int64(rng.Intn(3))
+				for k := 0; k < 3; k++ {
+					if !waitOps(at) {
+						return
+					}
+					f := []string{"commit", "commit", "write", "read"}[rng.Intn(4)]
+					rec.Emit(map[string]any{"ev": "FaultOn", "t": tr, "f": f})
+					release, ok := in.Hold(f)
+					if ok {
+						waitOps(ops.Load() + 1 + int64(rng.Intn(3)))
+						release()
+					}
+					rec.Emit(map[string]any{"ev": "FaultOff", "t": tr, "f": f, "taken": ok})
+					at = ops.Load() + 1 + int64(rng.Intn(3))
+				}
+			}()
+		} else {
+			close(holderDone)
+		}
 		for c := 1; c <= ncallers; c++ {
 			wg.Add(1)
 			go func(c int) {
@@ -272,9 +443,15 @@ func TestTrace(t *testing.T) {
 				belief := map[string]int{}
 				for k := 0; k < 4; k++ {
 					log := []string{"L1", "L1", "L1", "L2", "LX"}[rng.Intn(5)]
+					sp := "canon"
+					if rng.Intn(8) == 0 {
+						sp = Aliases[rng.Intn(len(Aliases))]
+					}
+					id := w.Spell(log, sp, rng.Intn(1000))
 					if rng.Intn(5) == 0 {
-						rec.Emit(map[string]any{"ev": "Invoke", "t": tr, "c": c, "op": "GetSTH", "log": log, "cand": none, "pf": "none"})
-						body, err := in.W.GetSTH(w.IDs[log])
+						rec.Emit(map[string]any{"ev": "Invoke", "t": tr, "c": c, "op": "GetSTH", "log": log, "sp": sp, "cand": none, "pf": "none"})
+						body, err := in.W.GetSTH(id)
+						ops.Add(1)
 						got := w.CandOfBody(body)
 						kind, note := w.Classify(body, got, log)
 						if note != "" {
@@ -315,8 +492,9 @@ func TestTrace(t *testing.T) {
 						}
 						pf = fmt.Sprintf("from%d", k)
 					}
-					rec.Emit(map[string]any{"ev": "Invoke", "t": tr, "c": c, "op": "Update", "log": log, "cand": cand, "pf": pf})
-					body, err := in.W.Update(context.Background(), w.IDs[log], w.Raw(cand, log), w.Proof(pf, none, cand))
+					rec.Emit(map[string]any{"ev": "Invoke", "t": tr, "c": c, "op": "Update", "log": log, "sp": sp, "cand": cand, "pf": pf})
+					body, err := in.W.Update(context.Background(), id, w.Raw(cand, log), w.Proof(pf, none, cand))
+					ops.Add(1)
 					got := w.CandOfBody(body)
 					kind, note := w.Classify(body, got, log)
 					if note != "" {
@@ -333,6 +511,19 @@ func TestTrace(t *testing.T) {
 			}(c)
 		}
 		wg.Wait()
+		close(done)
+		<-holderDone
+		// epilogue: what does the witness hold now?  (a cosigned-but-not-stored STH shows here at the latest)
+		for _, log := range []string{"L1", "L2"} {
+			rec.Emit(map[string]any{"ev": "Invoke", "t": tr, "c": 8, "op": "GetSTH", "log": log, "sp": "canon", "cand": none, "pf": "none"})
+			body, err := in.W.GetSTH(w.IDs[log])
+			got := w.CandOfBody(body)
+			kind, note := w.Classify(body, got, log)
+			if note != "" {
+				rep.Violate("trace:getsth-body", note, nil)
+			}
+			rec.Emit(map[string]any{"ev": "Return", "t": tr, "c": 8, "code": codeOf(err), "kind": kind, "sth": got})
+		}
 		n := 0
 		stored.Range(func(_, _ any) bool { n++; return true })
 		key := ""
